@@ -23,7 +23,8 @@ ALLOWED_AXIOMS = []
 RULE = (
     "matrices of 1-6 samples x 0-7 variants on 1-3 contigs, 2-5 alleles per variant, codes drawn from an arbitrary "
     "non-empty subset of each variant's alleles (so unobserved middle alleles and single-allele columns occur), "
-    "missing calls in any pattern (half-missing for VCF), phased/unphased/mixed, 2- and 3-plane arrays; chunk sizes "
+    "missing calls in any pattern (half-missing for VCF), phased/unphased/mixed, 2- and 3-plane arrays, the _prephased "
+    "attribute set on the writing or reading object in about 10% of the cases; chunk sizes "
     "None,1..p+1 independently for write and read; .vcf, .vcf.gz, .bcf with and without index. Non-trivial = at least "
     "one variant and one call that is heterozygous or missing. Distinct = distinct canonical JSON."
 )
@@ -70,6 +71,7 @@ def build_obj(cls, path, inp, **kw):
     n, p, k = len(inp["samples"]), len(inp["variants"]), inp.get("planes", 3)
     arr = np.array(inp["rows"], dtype=np.uint8).reshape((p, n, 3))[:, :, :k]
     g.data = np.ascontiguousarray(arr.transpose((1, 0, 2)))
+    g._prephased = bool(inp.get("wpre", False))
     return g
 
 
@@ -203,7 +205,7 @@ def features(inp):
     p = len(inp["variants"])
     if p == 0:
         out.append("p=0")
-    half = full = gap = single = False
+    half = full = gap = False
     for v, row in zip(inp["variants"], inp["rows"]):
         na = len(v[3])
         vals = set()
@@ -215,9 +217,7 @@ def features(inp):
             vals |= {c[0], c[1]}
         nm = vals - {255}
         if nm and max(nm) + 1 > len(nm):
-            gap = True
-        if len(vals) > na or (255 in vals and len(vals) > 2 and na == 2):
-            single = True
+            gap = True      # some allele index below the largest observed one is carried by nobody
     if half:
         out.append("half-missing")
     if full:
@@ -360,6 +360,8 @@ class Pgen(Relation):
             m["cr"] = chunk_choice(rng, p)
             if rng.random() < 0.02:
                 m["cw" if rng.random() < 0.5 else "cr"] = 0      # malformed: chunk_size = 0
+            m["wpre"] = bool(rng.random() < 0.1)                 # _prephased on the writing object
+            m["rpre"] = bool(rng.random() < 0.12)                # _prephased on the reading object
             out.append(m)
         return out
 
@@ -400,6 +402,7 @@ class Pgen(Relation):
                 from pathlib import Path
 
                 r = GenotypesPLINK(Path(path), log=getLogger("hv", "CRITICAL"), chunk_size=inp["cr"])
+                r._prephased = bool(inp.get("rpre", False))
                 r.read()
                 back = {"ok": dump_obj(r)}
             except Exception as e:  # noqa
@@ -419,7 +422,7 @@ class Pgen(Relation):
             calls = L.res(obs["calls"], lambda c: f"({L.z(c['limit'])}, {L.lst(c['batches'], batch_term)})")
             back = E.rgeno(obs["back"])
         return (f"(mkpc {g} {L.opt(inp['cw'], L.z)} {L.opt(inp['cr'], L.z)} {L.b(STRICT_PGEN_HALF_MISSING)} "
-                f"{calls} {back})")
+                f"{L.b(inp.get('wpre', False))} {L.b(inp.get('rpre', False))} {calls} {back})")
 
     def nontrivial(self, inp, obs):
         return nontrivial_matrix(inp)
@@ -430,6 +433,10 @@ class Pgen(Relation):
         for key in ("cw", "cr"):
             c = inp[key]
             out.append(f"{key}=" + ("None" if c is None else "0" if c == 0 else "1" if c == 1 else "p" if c == p else ">p" if c > p else "mid"))
+        if inp.get("wpre"):
+            out.append("writer-prephased")
+        if inp.get("rpre"):
+            out.append("reader-prephased")
         if isinstance(obs, dict) and "calls" in obs and "err" in obs["calls"]:
             out.append(f"write-err{obs['calls']['err']}")
         if isinstance(obs, dict) and "__crash__" in obs:
@@ -440,6 +447,9 @@ class Pgen(Relation):
         for key in ("cw", "cr"):
             if inp[key] is not None:
                 yield dict(inp, **{key: None})
+        for key in ("wpre", "rpre"):
+            if inp.get(key):
+                yield dict(inp, **{key: False})
         yield from shrink_matrix(inp)
 
     def mutate(self, inp, rng):
@@ -516,6 +526,8 @@ class Vcf(Relation):
             m = gen_matrix(rng, half_ok=True)
             m["fmt"] = str(rng.choice(["vcf", "vcf.gz", "vcf.gz", "bcf", "bcf"]))
             m["index"] = bool(m["fmt"] != "vcf" and m["variants"] and sorted_for_index(m) and rng.random() < 0.5)
+            m["wpre"] = bool(rng.random() < 0.1)
+            m["rpre"] = bool(rng.random() < 0.12)
             out.append(m)
         return out
 
@@ -539,6 +551,7 @@ class Vcf(Relation):
                 return {"file": file, "back": {"err": file["err"]}}
             try:
                 r = GenotypesVCF(Path(path), log=getLogger("hv", "CRITICAL"))
+                r._prephased = bool(inp.get("rpre", False))
                 r.read()
                 back = {"ok": dump_obj(r)}
             except Exception as e:  # noqa
@@ -557,17 +570,22 @@ class Vcf(Relation):
             rec = lambda r: f"({E.variant(r[0])}, {L.lst(r[1], vc)})"
             file = L.res(obs["file"], lambda f: f"(mkvf {L.lst(f['samples'], E.s)} {L.lst(f['recs'], rec)})")
             back = E.rgeno(obs["back"])
-        return f"(mkvc {g} {L.b(inp['index'])} {file} {back})"
+        return (f"(mkvc {g} {L.b(inp['index'])} {L.b(inp.get('wpre', False))} {L.b(inp.get('rpre', False))} "
+                f"{file} {back})")
 
     def nontrivial(self, inp, obs):
         return nontrivial_matrix(inp)
 
     def classes(self, inp, obs):
-        return features(inp) + [f"fmt={inp['fmt']}", f"index={'y' if inp['index'] else 'n'}"]
+        return (features(inp) + [f"fmt={inp['fmt']}", f"index={'y' if inp['index'] else 'n'}"]
+                + (["writer-prephased"] if inp.get("wpre") else []) + (["reader-prephased"] if inp.get("rpre") else []))
 
     def shrink(self, inp):
         if inp["fmt"] != "vcf" and not inp["index"]:
             yield dict(inp, fmt="vcf")
+        for key in ("wpre", "rpre"):
+            if inp.get(key):
+                yield dict(inp, **{key: False})
         for c in shrink_matrix(inp):
             if not inp["index"] or (c["variants"] and sorted_for_index(c)):
                 yield c
